@@ -27,6 +27,7 @@ def run_property(prop, tier='quick', overrides=None, quiet=False, only=None,
         R.info['analysed'] = ix.stats()
         mod.run(ix, R)
         extra = {}
+        R.n_quick = len(R.obls)
         if tier == 'thorough' and hasattr(mod, 'run_thorough'):
             mod.run_thorough(ix, R)
         if tier == 'thorough' and overrides is None:
